@@ -567,7 +567,8 @@ static void script_socket(struct simcfg *c, struct rng *r, int behaviour)
 	c->expire = 600;
 	c->iv_mode = RTR_INTERVAL_MODE_IGNORE_ANY;
 	c->chunk_rx = CH_MAX;
-	c->chunk_tx = CH_MAX;
+	/* half of the sockets take a PDU in several writes: another socket's thread can then run between two pieces */
+	c->chunk_tx = rndp(r, 1, 2) ? CH_MAX : (int)rndn(r, 4);
 	for (int q = 0; q < 8; q++)
 		c->xplan[q].pos = -1;
 	switch (behaviour) {
